@@ -14,6 +14,7 @@ password the harness itself set; no response body may contain a password or hash
 import asyncio
 import json
 import os
+import re
 import shutil
 import subprocess
 import sys
@@ -41,6 +42,7 @@ def initial_keys(case):
     for u in USERS:
         v = None if disk is None else disk.get(u)
         keys[u] = EMPTY if v in (None, '', 'MISSING') else v
+    keys['slave'] = case.get('slave')
     return keys
 
 
@@ -54,6 +56,8 @@ def walk(case):
         yield i, st, now, dict(keys)
         if st[0] == 'set':
             keys[st[1]] = jf.pwhash(st[2])
+        if st[0] == 'spatch' and 'admin_password' in st[1]:
+            keys['slave'] = jf.pwhash(st[1]['admin_password'])
 
 
 def all_keys(case):
@@ -67,6 +71,8 @@ def all_keys(case):
             ks.append(jf.pwhash(st[2]))
         if st[0] == 'make':
             ks.append(st[3])
+        if st[0] == 'spatch' and 'admin_password' in st[1]:
+            ks.append(jf.pwhash(st[1]['admin_password']))
     out = []
     for k in ks:
         if k and k not in out:
@@ -84,8 +90,8 @@ def k_potential(text, kind, now_ticks, keys, case, consts):
     cands = []
     if kind == 'req':
         cands = [(u, keys[u], consts['ori_consumer']) for u in USERS]
-    elif case.get('slave'):
-        cands = [(None, case['slave'], consts['ori_device'])]
+    elif keys.get('slave'):
+        cands = [(None, keys['slave'], consts['ori_device'])]
     for user, key, origin in cands:
         bad = jf.strict(text, user=user, key=key, origin=origin, iss=consts['iss'], now=now, skew=case['skew'])
         if not bad:
@@ -189,6 +195,14 @@ class Gen:
         self.tags.add('probe')
         return jf.build({'hdr': {'alg': self.c['alg'], 'typ': 'JWT'}, 'claims': claims, 'key': key})
 
+    def dev_probe(self):
+        """After a slave password change: a plain device-origin token under the slave's current or a superseded hash."""
+        r = self.r
+        key = r.choice([self.keys['slave'], self.keys['slave']] + self.old_keys['slave'][-2:] + [EMPTY])
+        claims = {'iss': self.c['iss'], 'ori': self.c['ori_device'], 'iat': self.valid_iat()}
+        self.tags.add('dev-probe')
+        return jf.build({'hdr': {'alg': self.c['alg'], 'typ': 'JWT'}, 'claims': claims, 'key': key})
+
     def garbage(self):
         r = self.r
         x = r.random()
@@ -220,7 +234,7 @@ class Gen:
             claims = {'iss': c['iss'], 'ori': c['ori_consumer'], 'usr': user, 'iat': self.valid_iat()}
         else:
             user = None
-            key = case.get('slave') or EMPTY
+            key = self.keys.get('slave') or EMPTY
             claims = {'iss': c['iss'], 'ori': c['ori_device'], 'iat': self.valid_iat()}
             if r.random() < 0.3:
                 claims['usr'] = r.choice(['admin', 'x', 5, [], None, ''])
@@ -360,7 +374,8 @@ class Gen:
             ('key-password-text', lambda: spec.update(key=(self.pw.get(user) or 'x') if user else 'slave')),
             ('key-empty-string', lambda: spec.update(key='', mac='HS256')),
             ('key-hash-upper', lambda: spec.update(key=spec['key'].upper())),
-            ('key-slave', lambda: spec.update(key=self.case.get('slave') or jf.pwhash('no-slave'))),
+            ('key-slave', lambda: spec.update(key=self.keys.get('slave') or jf.pwhash('no-slave'))),
+            ('key-old-slave', lambda: spec.update(key=r.choice(self.old_keys.get('slave') or [jf.pwhash('never-a-slave-pw')]))),
             ('sig-flip', lambda: spec.update(sigmut='flip')),
             ('sig-trunc', lambda: spec.update(sigmut='trunc')),
             ('sig-noncanon', lambda: spec.update(sigmut='noncanon')),
@@ -407,11 +422,18 @@ class Gen:
         proc = r.random() < (0.006 if self.tier == 'quick' else 0.004)
         if proc:
             disk = None
-        case = {'tps': TPS, 'skew': skew, 't': t, 'disk': disk, 'slave': slave, 'keys': ['f' * 64], 'steps': [], 'proc': proc}
+        smode = None
+        if slave:
+            smode = r.choice(['offline', 'offline', 'offline', 'poll', 'listen', 'online', 'online'])
+            if proc and smode == 'online':
+                smode = 'offline'
+        case = {'tps': TPS, 'skew': skew, 't': t, 'disk': disk, 'slave': slave, 'smode': smode, 'keys': ['f' * 64], 'steps': [],
+                'proc': proc}
         self.case = case
         self.now = t
         self.keys = initial_keys(case)
         self.old_keys = {u: [] for u in USERS}
+        self.old_keys['slave'] = []
         self.pw = {}
         n = r.randint(8, 40 if self.tier == 'quick' else 60)
         if proc:
@@ -455,7 +477,21 @@ class Gen:
                     key = r.choice([slave or EMPTY, slave or EMPTY, self.keys['normal'], jf.pwhash('mk-' + self.rand_word(4))])
                     steps.append(['make', 'device', u, key, bool(slave) and Fraction(self.now, TPS) > c['old_limit']])
             elif y < 0.955:
-                if slave:
+                if slave and smode == 'online' and r.random() < 0.75:
+                    # the slave's admin password is changed THROUGH the master (forwarded PATCH /device)
+                    body = r.choice([{'admin_password': 'slave-2'}, {'admin_password': ''}, {'admin_password': ''},
+                                     {'admin_password': 'slave-3'}, {'admin_password': 'sl-' + self.rand_word(6)},
+                                     {'display_name': 'slave ' + self.rand_word(3)},
+                                     {'admin_password': ' ', 'display_name': 'x'}])
+                    steps.append(['spatch', body])
+                    if 'admin_password' in body:
+                        self.old_keys['slave'].append(self.keys['slave'])
+                        self.keys['slave'] = jf.pwhash(body['admin_password'])
+                    for _ in range(r.choice([1, 2, 3])):
+                        steps.append(['dev', self.dev_probe()])
+                    if r.random() < 0.7:
+                        steps.append(['slavecall'])
+                elif slave:
                     steps.append(['slavecall'])
             else:
                 steps.append(['scan'])
@@ -527,6 +563,7 @@ class C10(Prop):
             return jf.build(dict({'hdr': dict(H), 'claims': claims, 'key': key}, **kw))
 
         base = {'iss': ISS, 'ori': ORI_C, 'usr': 'admin', 'iat': T_REAL}
+        dbase = {'iss': ISS, 'ori': ORI_D, 'iat': T_REAL}
         no_iat = {'iss': ISS, 'ori': ORI_C, 'usr': 'admin'}
         cases = [
             # known finding C10-iat-optional: tokens without an issue time are granted (three users + device origin)
@@ -580,6 +617,25 @@ class C10(Prop):
                  {'scheme': 'bearer'}, {'scheme': 'BEARER', 'sep': '\t \t'}, {'sep': ''}, {'pre': ' '}, {'post': ' '}, {'post': '\n'},
                  {'post': '\n\n'}, {'sep': '\xa0'}, {'tokmut': 'extra-seg'}, {'tokmut': 'drop-sig'}, {'tokmut': 'pad='},
                  {'sigmut': 'noncanon'}, {'sigmut': 'pad'}, {'tokmut': 'insert:ſ'}, {'tokmut': 'insert:.'}, {'scheme': 'Basic'})]},
+            # the slave's admin password changed THROUGH the master: 'slave-2', '', 'slave-3'; tokens under the current and
+            # the superseded slave hashes at the events endpoint; the token the master sends to the slave
+            {'tps': TPS, 'skew': 300, 't': t, 'disk': None, 'slave': k_slave, 'smode': 'online', 'keys': [], 'proc': False,
+             'steps': [['slavecall'], ['dev', tok(dbase, k_slave)],
+                       ['spatch', {'admin_password': 'slave-2'}], ['slavecall'], ['dev', tok(dbase, jf.pwhash('slave-2'))], ['dev', tok(dbase, k_slave)],
+                       ['spatch', {'admin_password': ''}], ['slavecall'], ['dev', tok(dbase, EMPTY)], ['dev', tok(dbase, jf.pwhash('slave-2'))],
+                       ['spatch', {'display_name': 'x'}], ['dev', tok(dbase, EMPTY)],
+                       ['spatch', {'admin_password': 'slave-3'}], ['slavecall'], ['dev', tok(dbase, jf.pwhash('slave-3'))], ['dev', tok(dbase, EMPTY)],
+                       ['restart'], ['dev', tok(dbase, jf.pwhash('slave-3'))], ['scan']]},
+            # the events endpoint authenticates first, whatever the slave's polling / listening configuration
+            {'tps': TPS, 'skew': 300, 't': t, 'disk': None, 'slave': k_slave, 'smode': 'poll', 'keys': [], 'proc': False,
+             'steps': [['dev', tok(dbase, k_slave)], ['dev', tok(dbase, EMPTY)], ['dev', None], ['dev', 'Bearer x'],
+                       ['dev', tok(dict(dbase, ori=ORI_C), k_slave)]]},
+            {'tps': TPS, 'skew': 300, 't': t, 'disk': None, 'slave': k_slave, 'smode': 'listen', 'keys': [], 'proc': False,
+             'steps': [['dev', tok(dbase, k_slave)], ['dev', tok(dbase, EMPTY)], ['dev', None], ['dev', tok(dict(dbase, iat=T_REAL - 301), k_slave)]]},
+            # a hub without a real clock still verifies signatures
+            {'tps': TPS, 'skew': 300, 't': 1_000_000 * TPS, 'disk': None, 'slave': None, 'keys': [], 'proc': False,
+             'steps': [['set', 'admin', 'corpus-admin-pw'], ['req', tok(dict(base, iat=1_000_000), jf.pwhash('forged'))],
+                       ['req', tok(dict(base, iat=1_000_000), EMPTY)], ['req', tok(dict(base, iat=1_000_000), k_admin)]]},
             # one real process restart
             {'tps': TPS, 'skew': 300, 't': t, 'disk': None, 'slave': None, 'keys': [], 'proc': True,
              'steps': [['set', 'normal', 'corpus-normal-pw'], ['set', 'admin', 'corpus-admin-pw'], ['req', tok(base, k_admin)],
@@ -622,8 +678,9 @@ class C10(Prop):
     async def _real_inproc(self, case):
         hub = self.hub
         await hub.start({'tps': case['tps'], 'skew': case['skew'], 't': case['t']},
-                        {'disk': case.get('disk'), 'slave': case.get('slave')}, fresh=True)
-        obs = [{'k': 'boot', 'hashes': hub.hashes(), 'record': await hub.record()}]
+                        {'disk': case.get('disk'), 'slave': case.get('slave'), 'smode': case.get('smode')}, fresh=True)
+        obs = [{'k': 'boot', 'hashes': hub.hashes(), 'record': await hub.record(), 'simlog': hub.drain_simlog(),
+                'slave_state': hub.slave_state()}]
         for i, st, now, keys in walk(case):
             o = await hub.exec(st, keys['admin'])
             obs.append(o)
@@ -648,7 +705,8 @@ class C10(Prop):
             obs = []
             for k, seg in enumerate(segs):
                 job = {'file': path, 'cfg': {'tps': case['tps'], 'skew': case['skew'], 't': seg['t']},
-                       'state': {'disk': None, 'slave': case.get('slave')}, 'steps': seg['steps'], 'admin_keys': seg['keys']}
+                       'state': {'disk': None, 'slave': case.get('slave'), 'smode': case.get('smode')}, 'steps': seg['steps'],
+                       'admin_keys': seg['keys']}
                 p = subprocess.run([sys.executable, '-m', 'harness.sub', 'harness.hub_c10'], input=json.dumps(job),
                                    capture_output=True, text=True, cwd=core.VERIF, env=os.environ, timeout=600)
                 line = [l for l in p.stdout.splitlines() if l.startswith('C10OBS ')]
@@ -729,6 +787,8 @@ class C10(Prop):
                 set_fail('correspondence', f'step {i}: persisted hash record differs after {o["k"]}', 'state', rrec, mdisk)
 
         check_state(-1, obs[0], words)
+        m_slave = case.get('slave') or ''
+        ask(f'slave {jf.enc_s(m_slave)}')
         oi = 1
         # what the harness itself knows (independent of the hub): latest password hash per user, every secret so far
         cur = initial_keys(case)
@@ -739,6 +799,12 @@ class C10(Prop):
         now = case['t']
 
         def scan(i, body, what):
+            if what == 'GET /api/devices':
+                # the slave records' own admin hashes (reported only, outside the statement) may coincide with a hub
+                # hash (e.g. both passwords empty): that field is not a leak of the hub's hash
+                if re.search(r'"admin_password_hash":\s*"[0-9a-f]{64}"', body):
+                    tags.add('reported:slave-admin-hash-in-body')
+                body = re.sub(r'"admin_password_hash":\s*"[0-9a-f]{64}"', '"admin_password_hash": "-"', body)
             for kind, s in secrets:
                 if kind == 'password':
                     hit = s in body or json.dumps(s)[1:-1] in body
@@ -782,32 +848,46 @@ class C10(Prop):
                     set_fail('correspondence', f'step {i}: GET /api/access with {hdr!r}: code grants {r_level}, model {m_level} ({why})',
                              'level', r_level, m_level)
             else:
-                sh = case.get('slave')
+                sh = cur.get('slave')
                 if o['status'] == 404 and not sh:
                     tags.add('dev:no-slave')
                     return
-                if o['status'] not in (400, 401, 500):
-                    raise core.Broken(f'unexpected status {o["status"]} from the slave events endpoint: {o["body"][:200]}')
-                r_ok = o['status'] == 400
-                rep = ask(f'device {now} {jf.enc_s(c["ori_device"])} {jf.enc_s(sh)} {jf.enc_cps(hdr)} {jf.enc_facts(f)}')
-                m_ok, why = rep[0] == '1', rep[1]
-                tags.add('dev-grant' if m_ok else 'dev-deny:' + why)
+                try:
+                    err = json.loads(o['body']).get('error') if o['body'].strip() else None
+                except ValueError:
+                    err = None
+                if o['status'] in (401, 500):
+                    r_out = 'unauthorized'
+                elif o['status'] == 400 and err in ('missing-field', 'invalid-field', 'unexpected-field'):
+                    r_out = 'invalid-body'
+                elif o['status'] == 400 and err in ('polling-enabled', 'listening-enabled'):
+                    r_out = err
+                else:
+                    raise core.Broken(f'unexpected answer {o["status"]} {o["body"][:200]} from the slave events endpoint')
+                r_ok = r_out != 'unauthorized'
+                smode = case.get('smode') or 'offline'
+                polled, listened = smode in ('poll', 'online'), smode == 'listen'
+                rep = ask(f'device {now} {jf.enc_s(c["ori_device"])} {jf.enc_b(polled)} {jf.enc_b(listened)} 0 {jf.enc_cps(hdr)} {jf.enc_facts(f)}')
+                m_ok, why, m_out = rep[0] == '1', rep[1], rep[2]
+                tags.add('dev-grant:' + smode if m_ok else 'dev-deny:' + why)
                 outcomes.append('dev+' if r_ok else 'dev-')
                 if r_ok:
                     granted += 1
                     bad = ['no-header'] if not hdr else jf.strict(hdr, user=None, key=sh, origin=c['ori_device'], iss=c['iss'], now=nowf, skew=skew)
                     if bad:
                         clockless = not (nowf > c['old_limit'])
-                        set_fail('property', f'step {i}: device header {hdr!r} passes the slave events endpoint at t={float(nowf)} but fails: {bad}',
+                        set_fail('property', f'step {i}: device header {hdr!r} is not refused (401) by the slave events endpoint at '
+                                 f't={float(nowf)} (answer {o["status"]} {err}) but fails: {bad}',
                                  'devgrant:' + '+'.join(bad) + (':clockless' if clockless else ''), o)
                 else:
                     refused += 1
-                if r_ok != m_ok:
-                    set_fail('correspondence', f'step {i}: POST /api/devices/../events with {hdr!r}: code {"passes" if r_ok else "refuses"}, '
-                             f'model {"passes" if m_ok else "refuses"} ({why})', 'device', r_ok, m_ok)
+                if r_out != m_out:
+                    set_fail('correspondence', f'step {i}: POST /api/devices/../events ({smode} slave) with {hdr!r}: code answers {r_out} '
+                             f'({o["status"]} {err}), model {m_out} ({why})', 'device', r_out, m_out)
             scan(i, o.get('body', ''), 'the response')
 
-        def judge_issued(i, hdr, okind, usr, key):
+        def judge_issued(i, hdr, okind, usr, key, okey=None):
+            okey = key if okey is None else okey
             origin = c['ori_consumer'] if okind == 'consumer' else c['ori_device']
             f = jf.facts(hdr, keys_pool + [key], tps)
             rep = ask(f'make {now} {jf.enc_s(origin)} {jf.enc_os(usr)} {jf.enc_s(key)}')
@@ -816,7 +896,7 @@ class C10(Prop):
                          'make', jf.enc_facts(f), ' '.join(rep))
             nowf = Fraction(now, tps)
             user = usr if okind == 'consumer' else None
-            bad = jf.strict(hdr, user=user, key=key, origin=origin, iss=c['iss'], now=nowf, skew=max(skew, 1))
+            bad = jf.strict(hdr, user=user, key=okey, origin=origin, iss=c['iss'], now=nowf, skew=max(skew, 1))
             if okind == 'consumer' and not usr:
                 bad = [b for b in bad if b != 'usr']
             if not (nowf > c['old_limit']):
@@ -826,6 +906,22 @@ class C10(Prop):
                 set_fail('property', f'step {i}: the token the hub issued ({hdr!r}) does not verify under its own rules: {bad}', 'issued:' + '+'.join(bad))
             tags.add('issued:' + okind)
 
+        def judge_sim(i, o):
+            """requests the hub sent to its (simulated) slave: their tokens must verify under the slave's current hash,
+            and the hash the master holds must be the model's"""
+            nowf = Fraction(now, tps)
+            for hdr, sim_key, bad in o.get('simlog') or []:
+                tags.add('to-slave')
+                bad = [b for b in bad if not (b == 'iat-absent' and not (nowf > c['old_limit']))]
+                if bad:
+                    set_fail('property', f'step {i}: the token the hub sent to its slave ({hdr!r}) does not verify under the slave\'s '
+                             f'current admin hash {sim_key[:10]}…: {bad}', 'issued-to-slave:' + '+'.join(bad))
+            ss = o.get('slave_state')
+            if ss is not None and ss[0] != m_slave:
+                set_fail('correspondence', f'step {i}: the admin hash the master holds for its slave differs from the model after {o["k"]}',
+                         'slave-state', ss[0], m_slave)
+
+        judge_sim(-1, obs[0])
         steps = case['steps']
         for i, st in enumerate(steps):
             kind = st[0]
@@ -835,6 +931,8 @@ class C10(Prop):
                 now = st[1]
                 tags.add('clock:real' if Fraction(now, tps) > c['old_limit'] else 'clock:unset')
                 continue
+            if kind != 'spatch':
+                judge_sim(i, o)
             if kind in ('req', 'dev'):
                 judge_auth(i, kind, st[1], o)
             elif kind == 'set':
@@ -874,10 +972,23 @@ class C10(Prop):
                     judge_auth(i, 'req' if okind == 'consumer' else 'dev', o['hdr'], o2)
             elif kind == 'slavecall':
                 if o.get('hdr'):
-                    judge_issued(i, o['hdr'], 'consumer', 'admin', case['slave'])
+                    judge_issued(i, o['hdr'], 'consumer', 'admin', m_slave, cur['slave'])
                     tags.add('issued:slave-api-call')
                 else:
                     set_fail('correspondence', f'step {i}: Slave.api_call sent no Authorization header', 'make')
+            elif kind == 'spatch':
+                body = st[1]
+                scan(i, o['body'], 'PATCH …/forward/device')
+                if o['status'] not in (200, 204):
+                    set_fail('correspondence', f'step {i}: PATCH /api/devices/../forward/device with a valid admin token answered '
+                             f'{o["status"]} {o["body"][:100]}', 'admin-call')
+                elif 'admin_password' in body:
+                    cur['slave'] = jf.pwhash(body['admin_password'])
+                    m_slave = jf.dec_s(ask(f'sset {jf.enc_s(cur["slave"])}')[0])
+                    tags.add('slave-set:empty' if body['admin_password'] == '' else 'slave-set')
+                else:
+                    tags.add('slave-patch:other')
+                judge_sim(i, o)
             elif kind == 'scan':
                 for path, status, body in o['responses']:
                     scan(i, body, f'GET {path}')
